@@ -8,6 +8,7 @@ a function of that track and the frame only, and the device calls of every tick 
 and in scheduling order, the concatenation of what each track does on its own trajectory — which is
 literally what the timeline holding that track alone does (`alone_is_the_solo_timeline`).
 -/
+import IsobarV.Props.C12Names
 import IsobarV.Sched.Multi
 
 namespace IsobarV.C07
